@@ -29,7 +29,7 @@ Depth == IF "VERIF_DEPTH" \in DOMAIN IOEnv THEN atoi(IOEnv.VERIF_DEPTH) ELSE 6
 \* Focused generators.  `gone` is a generator-only abstraction of the past (files that were deleted or evicted
 \* at least once): with it in the VIEW, edge cover reaches states such as "F2 and F7 present after F4 was
 \* deleted" through histories that really contain the deletion -- what reference-count slips need.
-VARIABLE gone
+VARIABLES gone, pre   \* pre: abstract state before the last operation (edge cover is per SOURCE state)
 Mode == IF "VERIF_NODEMODE" \in DOMAIN IOEnv THEN IOEnv.VERIF_NODEMODE ELSE "all"
 
 NextDel == \/ \E f \in File : Upload(f, FALSE) \/ Download(f, "all") \/ Delete(f) \/ Read(f)
@@ -38,16 +38,17 @@ NextPin == \/ \E f \in File, p \in BOOLEAN : Upload(f, p)
            \/ \E f \in File : Download(f, "all") \/ Delete(f)
            \/ \E f \in File, via \in {"api", "svc"} : Pin(f, via) \/ Unpin(f, via)
 
-GInit == Init /\ hist = <<>> /\ gone = {}
+GInit == Init /\ hist = <<>> /\ gone = {} /\ pre = <<>>
 GNext == /\ Len(hist) < Depth
          /\ CASE Mode = "del" -> NextDel [] Mode = "pin" -> NextPin [] OTHER -> Next
          /\ hist' = Append(hist, last')
          /\ gone' = gone \cup (known \ known')
-GSpec == GInit /\ [][GNext]_<<vars, hist, gone>>
+         /\ pre' = <<data, up, pin, acct, known, rootpin, gone>>
+GSpec == GInit /\ [][GNext]_<<vars, hist, gone, pre>>
 
 Scn == [par |-> [files |-> SetToSeq(File)], ops |-> hist]
 EdgeView == <<data, up, pin, acct, held, known, rootpin, bits, lru, last, gone>>
-FocusView == <<data, up, pin, acct, known, rootpin, last, gone>>
+FocusView == <<pre, data, up, pin, acct, known, rootpin, last, gone>>
 EmitAll  == hist # <<>> => PrintT(<<"SCN", ToJson(Scn)>>)
 EmitFull == Len(hist) = Depth => PrintT(<<"SCN", ToJson(Scn)>>)
 =============================================================================
